@@ -286,6 +286,16 @@ def math_call(s):
     return None
 
 
+def user_call(s, user):
+    """(arity, value function, [partial functions]) if *s* calls a caller-supplied function of the
+    table *user* (name -> entry) with the right number of arguments, else None."""
+    if s[0] == "Call" and s[1][0] == "Variable" and s[1][1][1] in user:
+        ent = user[s[1][1][1]]
+        if len(s[2]) - 1 == ent[0]:
+            return ent
+    return None
+
+
 def call_class(s):
     """'smooth' | 'fabs' | 'sign' | 'log2' | 'unknown' for a Call node.  'log2' is math.log with an
     explicit base: not in the derivative table, but a function Python's math really has with that
@@ -337,9 +347,10 @@ class DualEval:
     *dvars*: specs of the differentiation variables (Variable / Subscript specs);
     *depends*: callable (spec, k) -> does the subtree structurally mention dvars[k]."""
 
-    def __init__(self, fld, point, dvars, depends):
+    def __init__(self, fld, point, dvars, depends, user=None):
         self.fld = fld
         self.point = point
+        self.user = user or {}
         self.dvars = list(dvars)
         self.n = len(self.dvars)
         self.depends = depends
@@ -428,6 +439,17 @@ class DualEval:
 
     def call(self, s):
         cls = call_class(s)
+        uf = user_call(s, self.user)
+        if uf is not None:
+            # caller-supplied function: chain rule over all arguments with the oracle's partials
+            _, fval, partials = uf
+            duals = [self.ev(a) for a in s[2][1:]]
+            vals = [lift(v) for v, _ in duals]
+            out = self.zeros()
+            for pf, (_, ad) in zip(partials, duals):
+                pv = lift(pf(*vals))
+                out = [o + pv * b for o, b in zip(out, ad)]
+            return lift(fval(*vals)), out
         if cls == "unknown":
             raise NotInFragment("unknown function")
         name, args = math_call(s)
@@ -491,8 +513,8 @@ class DRef(Ref):
     """vf.refsem.Ref over the field: constants are lifted exactly (a float constant denotes its
     exact binary value), powers / comparisons use the field's rules."""
 
-    def __init__(self, fld, point, bare_log=True):
-        env = {}
+    def __init__(self, fld, point, bare_log=True, user=None):
+        env = {name: ent[1] for name, ent in (user or {}).items()}
         for k, v in point.items():
             if isinstance(k, tuple):
                 env.setdefault(k[0], _Agg(k[0], point))
@@ -615,10 +637,12 @@ def _float_dual(s, env, dv):
         g2 = _fin(gv * gv)
         return fv / gv, _fin(_fin(fd * gv) - _fin(fv * gd)) / g2
     if t == "Power":
-        if s[2][0] != "int":
-            raise NotInFragment("tail family: constant integer exponents only")
+        if s[2][0] not in ("int", "float"):
+            raise NotInFragment("float families: constant exponents only")
         fv, fd = float_dual(s[1], env, dv)
         n = s[2][1]
+        if float(n) != int(n) and fv <= 0:
+            raise FloatSkip("real power of a non-positive base")
         if fv == 0 and n <= 0:
             raise FloatSkip("pole")
         return fv ** n, (n * _fin(fv ** (n - 1)) * fd if n else 0.0)
